@@ -1,7 +1,13 @@
 package props
 
 import (
+	"path/filepath"
+	"sync"
+	"sync/atomic"
+
 	"fmt"
+	"github.com/glebziz/fs_db/pkg/verif"
+	"verifharness/internal/refmodel"
 
 	"verifharness/internal/dbx"
 	"verifharness/internal/rt"
@@ -13,7 +19,10 @@ func init() {
 		ID: "C13", Level: "exploration",
 		Rule:        "seeded histories in which transactions of all four levels end by Commit (successful or failing with ErrTxSerialization) or Rollback and are then used again (Get, GetReader, GetKeys, Set, SetReader, Create, Delete, Commit, Rollback), plus handles naming never-begun transaction ids; inline and gRPC clients; after every step the autocommit caller, every open transaction (RU/RC/RR/SER readers) and every ended handle probe all keys and GetKeys, and half of the histories reopen the database at the end and probe again; all compared with the reference model (late use fails with ErrTxNotFound, Rollback is a no-op, nothing changes); evaluations = late calls + probes; distinct_nontrivial = distinct (late operation, level, how the transaction ended, client, result class) tuples",
 		Assumptions: []string{"reference model refmodel"},
-		Roles:       map[string]Role{"main": {N: func(t string) int { return tierN(t, 200, 3000) }, Case: c13Case}},
+		Roles: map[string]Role{
+			"main":       {N: func(t string) int { return tierN(t, 200, 3000) }, Case: c13Case},
+			"concurrent": {N: func(t string) int { return tierN(t, 16, 160) }, Case: c13Concurrent},
+		},
 	})
 }
 
@@ -70,6 +79,89 @@ func c13Case(tier string, seed int64, idx int, scratch string) rt.CaseResult {
 	}
 	if idx < 4 && idx%2 == 1 {
 		c.Sample = map[string]any{"history": idx, "mode": modeName(mode), "tail_of_steps": sampleSteps(steps[len(steps)*2/3:], 14)}
+	}
+	return c
+}
+
+// c13Concurrent: other goroutines are reading through a transaction at the very moment it is
+// committed or rolled back; every read issued after Commit/Rollback has returned must fail with
+// ErrTxNotFound (reads that were in flight may have succeeded).
+func c13Concurrent(tier string, seed int64, idx int, scratch string) rt.CaseResult {
+	var c rt.CaseResult
+	mode := dbx.Inline
+	if idx%4 == 3 {
+		mode = dbx.Grpc
+	}
+	env, err := dbx.Open(dbx.Options{Mode: mode, Dir: filepath.Join(scratch, "db")})
+	if err != nil {
+		c.Violate("open-failed", err.Error(), nil)
+		return c
+	}
+	defer env.Close()
+	rng := seqrun.Rng(seed, "C13c", idx)
+	env.DB.Set(ctxBg, "k", []byte("v0"))
+	iters := tierN(tier, 150, 400)
+	if mode == dbx.Grpc {
+		iters /= 4
+	}
+	for it := 0; it < iters; it++ {
+		rt.Beat()
+		level := rng.Intn(4)
+		tx, err := env.DB.Begin(ctxBg, verif.IsoLevel(level))
+		if err != nil {
+			c.Violate("begin-failed", err.Error(), nil)
+			return c
+		}
+		if rng.Intn(2) == 0 {
+			tx.Set(ctxBg, "k", []byte(fmt.Sprintf("t%d-%d", idx, it)))
+		}
+		var stop atomic.Bool
+		var wg sync.WaitGroup
+		for g := 0; g < 3; g++ {
+			wg.Add(1)
+			go func(g int) {
+				defer wg.Done()
+				for !stop.Load() {
+					if g%2 == 0 {
+						tx.GetKeys(ctxBg)
+					} else {
+						tx.Get(ctxBg, "k")
+					}
+				}
+			}(g)
+		}
+		end := "commit"
+		if rng.Intn(3) == 0 {
+			end = "rollback"
+			err = tx.Rollback(ctxBg)
+		} else {
+			err = tx.Commit(ctxBg)
+		}
+		ended := err == nil || seqrun.Class(err) == refmodel.TxSerial
+		// reads issued from now on are after the end of the transaction
+		_, e1 := tx.Get(ctxBg, "k")
+		_, e2 := tx.GetKeys(ctxBg)
+		stop.Store(true)
+		wg.Wait()
+		_, e3 := tx.Get(ctxBg, "k")
+		_, e4 := tx.GetKeys(ctxBg)
+		e5 := tx.Commit(ctxBg)
+		c.Evals += 5
+		if !ended {
+			c.Violate("end-failed op="+end, fmt.Sprint(err), nil)
+			return c
+		}
+		for i, e := range []error{e1, e2, e3, e4, e5} {
+			if cls := seqrun.Class(e); cls != refmodel.TxNotFound {
+				op := []string{"get", "getkeys", "get", "getkeys", "commit"}[i]
+				c.Violate(fmt.Sprintf("late-read-accepted-after-concurrent-end op=%s got=%s", op, cls), fmt.Sprintf("iteration %d (%s, level %d, %s): %s through the transaction after its %s had returned gave %s instead of ErrTxNotFound (other goroutines were reading through it while it ended)", it, modeName(mode), level, end, op, end, cls), map[string]any{"iteration": it, "mode": modeName(mode), "level": level, "end": end})
+				return c
+			}
+		}
+		c.AddDistinct(fmt.Sprintf("concurrent-end/%s/level%d/%s", modeName(mode), level, end))
+	}
+	if idx == 0 {
+		c.Sample = map[string]any{"scenario": "3 goroutines read through a transaction while it is committed/rolled back; reads issued afterwards must fail", "iterations": iters}
 	}
 	return c
 }
